@@ -290,6 +290,8 @@ func (ex *Exec) applyContract(st *State, fr *Frame, ct *Contract, key string, ar
 	short := contractShort(key)
 	if !ct.Trusted {
 		ex.usedContracts[key] = true
+	} else {
+		ex.usedContracts["assumed contract: "+key] = true
 	}
 	st.callN[short]++
 	ord := st.callN[short]
